@@ -93,6 +93,16 @@ CHECKS['C14'] = {
     'note': 'No unbounded invariant for the list-of-dicts state; executable contract specs/cn.py is the oracle; Python float arithmetic with 1e-9 tolerance.',
 }
 
+CHECKS['C01'] = {
+    'level': 'other',
+    'technique': 'hybrid: deductive proof of the reading-order sort contract (z3/cvc5, model of sorted() = stable permutation ordered by the source key) + bounded export/import/export contract on real lxml over a structured grid',
+    'text': ('PROVED for all pages: sort_regions_by_reading_order is a stable permutation ordered by reading_order[region.id], unlisted regions last. '
+             'BOUNDED: round trip equal up to the documented rounding, fixpoint of the re-exported document, regions held/written in reading order, both PAGE '
+             'versions, exhaustive over the product of line-attribute pools (972 single-line layouts) and all structures of 0..3 regions x 0..2 lines with every '
+             'partial reading-order permutation. Heights are compared only where present (absent heights are guessed on import by design).'),
+    'note': 'Trusted: pyvc; lxml (A6); strings outside the transcription pool are not decided; coordinate string codec is bounded only.',
+}
+
 NOT_APPLICABLE = {
     'C20': ('equality up to round-off of float tensors produced by torch C++ kernels through module-resident caches across calls: no contract '
             'within reach can state it over reals, no finite domain makes a bounded check exhaustive; a random differential test would be a different technique (DESIGN.md §6)'),
